@@ -714,7 +714,26 @@ def sup7(ctx):
         if not S:
             raise AnchorMissing("SUP-7: %s has no run-skip loop (seg_length_at followed by a loop over SegPos::increment)" % name)
         n += 1
-        reach = cfg.reachable_from(0, avoid=S | errs)
+        # a cursor past the end of the word has no run to step over: the out-of-bounds edge of a bounds test is a justified exit
+        oob = set()
+        for i, t in b2.calls():
+            cp = callee_path(t) or ""
+            nxt = t.get("t")
+            sw = b2.blocks[nxt]["t"] if nxt is not None else {}
+            if sw.get("k") != "switch":
+                continue
+            vals = dict((v, tg) for v, tg in sw["vals"])
+            if cp.endswith("Word::out_of_bounds"):
+                tgt = vals.get(1, sw.get("otherwise") if 0 in vals else None)
+            elif cp.endswith("Word::in_bounds"):
+                tgt = vals.get(0)
+            elif cp.endswith("Word::get_seg_at"):
+                tgt = vals.get(0, sw.get("otherwise") if 1 in vals else None)      # the `None` edge of the inspected Option
+            else:
+                continue
+            if tgt is not None:
+                oob.add(tgt)
+        reach = cfg.reachable_from(0, avoid=S | errs | oob)
         bad = sorted(x for x in reach if x in rets)
         # name the statement that returns without the skip: the last source line on such a path before the return
         where = None
